@@ -22,7 +22,7 @@ RULE = ("token leg (every case runs against the NetHome Plus model cloud or agai
         "session id on getToken and the udpid shape, and records every failed check; client side: get_token returns exactly the "
         "matching (token, key) or raises CloudError; faults raise CloudError/ApiError after <= 3 POSTs of that request and never "
         "another type; success when an ok comes within the budget. Discovery leg: a V3 model device (answering a wrong token with an error packet, or ignoring it) accepting only the "
-        "credentials registered for udpid(id bytes, little or big endian) + the model cloud + Discover.discover(auto_connect=True): "
+        "credentials registered for udpid(id bytes, little or big endian; appliance type 0xAC or any other; the two header bytes above the 48-bit id zero or not) + the model cloud + Discover.discover(auto_connect=True): "
         "device token/key == registered pair, online, genuine handshake seen; for big endian the little-endian attempt failed "
         "first; variants: up to two more V3 devices answer the same discovery (their cloud round trips take time and overlap); the cloud fails during a first Discover.connect() and has recovered when the user retries. Non-trivial: token list with >= 2 entries and a near miss before the match, or a fault sequence with >= 1 retry, "
         "or big-endian registration, or a cloud that knows only the registered ids (API error or empty token list for any other id; used with little-endian registrations, for which no other id needs to be asked about). Distinct by case.")
@@ -172,7 +172,9 @@ def check_discovery(case: dict):
 
     async def main(loop):
         harness.reset_library_globals()
-        h = {"ip": "10.0.0.77", "id": dev_id, "port": case.get("port", 6444), "sn": "S" * 32, "tt": 0xAC, "suffix": "ABCD", "version": 3,
+        # the 8-byte id field of the reply header: the id is its low 48 bits (what the udpid is derived from); firmware may
+        # leave anything in the two bytes above it.  The appliance type is an air conditioner or any other type byte.
+        h = {"ip": "10.0.0.77", "id": dev_id | (case.get("hi", 0) << 48), "port": case.get("port", 6444), "sn": "S" * 32, "tt": case.get("tt", 0xAC), "suffix": "ABCD", "version": 3,
              "listen_port": 6445, "extra": bytes(8).hex()}
         dev = SimDevice(loop, version=3, device_id=dev_id, token=token, key=key, ac=ModelAC())
         dev.silent_on_bad_token = bool(case.get("silent"))     # firmware that ignores a handshake with a wrong token instead of answering ERROR
@@ -183,7 +185,7 @@ def check_discovery(case: dict):
         for i, m in enumerate(case.get("more", [])):
             u = rc.udpid(m["id"].to_bytes(6, m["endian"])).hex()
             mt, mk = creds_for(u)
-            hh = dict(h, ip=f"10.0.0.{80 + i}", id=m["id"], suffix=f"M{i}")
+            hh = dict(h, ip=f"10.0.0.{80 + i}", id=m["id"] | (m.get("hi", 0) << 48), suffix=f"M{i}", tt=m.get("tt", 0xAC))
             d2 = SimDevice(loop, version=3, device_id=m["id"], token=bytes.fromhex(mt), key=bytes.fromhex(mk), ac=ModelAC())
             net.listen(hh["ip"], hh["port"], d2)
             world_hosts.append(dict(ip=hh["ip"], listen_port=6445, replies=[(0.05 + 0.001 * (i + 1) * m.get("stagger", 1), 6445, discsim.good_reply(hh))]))
@@ -229,13 +231,14 @@ def check_discovery(case: dict):
         return ("discover/count", f"{len(res['devs'])} devices for {1 + len(res['more'])} hosts")
     for ip, mt, mk in res["more"]:
         dd = [x for x in res["devs"] if x.ip == ip]
-        if len(dd) != 1 or (dd[0].token, dd[0].key) != (mt.lower(), mk.lower()) or not dd[0].online:
+        tt_i = next((m.get("tt", 0xAC) for j, m in enumerate(case.get("more", [])) if f"10.0.0.{80 + j}" == ip), 0xAC)
+        if len(dd) != 1 or (dd[0].token, dd[0].key) != (mt.lower(), mk.lower()) or (tt_i == 0xAC and not dd[0].online):
             return ("discover/second-device", f"device {ip} answering the same discovery: token/key/online = "
                     f"{(dd[0].token and dd[0].token[:12], dd[0].key and dd[0].key[:12], dd[0].online) if dd else None}")
     d = [x for x in res["devs"] if x.ip == "10.0.0.77"][0]
     if (d.token, d.key) != (token.hex(), key.hex()):
         return ("discover/creds", f"device token/key {d.token and d.token[:16]}../{d.key and d.key[:16]}.. != registered pair (endian {endian})")
-    if not d.online:
+    if not d.online and case.get("tt", 0xAC) == 0xAC:      # (a generic device is authenticated but cannot be refreshed)
         return ("discover/offline", f"V3 device registered under {endian}-endian udpid not online after auto-connect; device saw {res['log']}")
     hs = [x for x in res["log"] if x[0] == "hs_req"]
     if case.get("outage"):
@@ -303,8 +306,10 @@ def run(ctx) -> None:
     ctx.hyp("token", token_cases, lambda c: _run_one(ctx, c), ctx.n(3200, 160000))
     disc_cases = st.fixed_dictionaries({"leg": st.just("discovery"), "id": gens.device_ids(48).filter(lambda i: i.to_bytes(6, "little") != i.to_bytes(6, "big")),
                                         "endian": st.sampled_from(["little", "big"]), "port": st.sampled_from([6444, 6444, 7000])},
-                                       optional={"silent": st.booleans(), "strict": st.sampled_from([None, "api", "empty"]), "more": st.lists(st.fixed_dictionaries({"id": gens.device_ids(48).filter(lambda i: i.to_bytes(6, "little") != i.to_bytes(6, "big")),
-                                                                                         "endian": st.sampled_from(["little", "big"]), "stagger": st.sampled_from([0, 1, 30, 200])}), max_size=2),
+                                       optional={"silent": st.booleans(), "strict": st.sampled_from([None, "api", "empty"]), "hi": st.sampled_from([0, 0, 1, 0xFFFF, 0x8000]), "tt": st.sampled_from([0xAC, 0xAC, 0xA1, 0xE1, 0x00, 0xFF]),
+                                                 "more": st.lists(st.fixed_dictionaries({"id": gens.device_ids(48).filter(lambda i: i.to_bytes(6, "little") != i.to_bytes(6, "big")),
+                                                                                         "endian": st.sampled_from(["little", "big"]), "stagger": st.sampled_from([0, 1, 30, 200])},
+                                                                                        optional={"hi": st.sampled_from([0, 1, 0xFFFF]), "tt": st.sampled_from([0xAC, 0xA1, 0xFF])}), max_size=2),
                                                  "outage": st.fixed_dictionaries({}, optional={
                                            "/v1/user/login/id/get": st.lists(st.sampled_from(["timeout", "timeout", "http500", "connect", "api:3101"]), min_size=1, max_size=3),
                                            "/v1/user/login": st.lists(st.sampled_from(["timeout", "http500", "api:3102"]), min_size=1, max_size=3),
@@ -321,4 +326,15 @@ def run(ctx) -> None:
                     case = {"leg": "discovery", "id": dev_id, "endian": "little", "port": 6444, "strict": strict, "silent": silent}
                     ctx.check(case, lambda c: _run_one(ctx, c))
     ctx.sweep("little-endian registrations x strict cloud modes x firmware answers", k, True)
+    # appliance types other than air conditioners, and non-zero bytes above the 48-bit id in the reply header
+    g = 0
+    for tt in (0xAC, 0xA1, 0xE1, 0x00, 0xFF):
+        for hi in (0, 1, 0xFFFF):
+            for endian in ("little", "big"):
+                g += 1
+                if ctx.mine(g):
+                    case = {"leg": "discovery", "id": 0x0000A1B2C3D4 + g, "endian": endian, "port": 6444, "tt": tt, "hi": hi,
+                            "more": [{"id": 0x00112233AA00 + g, "endian": "little", "stagger": 1, "hi": hi ^ 0xFFFF if g % 2 else 0, "tt": 0xAC if tt != 0xAC else 0xA1}]}
+                    ctx.check(case, lambda c: _run_one(ctx, c))
+    ctx.sweep("appliance type x bytes above the id x byte order (with a second device of another kind)", g, True)
     ctx.hyp("discovery", disc_cases, lambda c: _run_one(ctx, c), ctx.n(600, 32000))
